@@ -537,7 +537,8 @@ fn parse_dist_header_with_cache<'a>(
     let (mut input, flags) = take(flags_len)(input)?;
 
     let long_atoms_flag_byte = flags[flags_len - 1];
-    let long_atoms = (long_atoms_flag_byte & 0x01) != 0;
+    let long_atoms_shift = if num_atom_cache_refs % 2 == 0 { 0 } else { 4 };
+    let long_atoms = ((long_atoms_flag_byte >> long_atoms_shift) & 0x01) != 0;
 
     for i in 0..num_atom_cache_refs {
         let (new_input, internal_segment_index) = be_u8(input)?;
